@@ -97,7 +97,7 @@ def check_full(ctx, fb):
             if not (isinstance(init, tuple) and init[0] == "bin" and init[1] == "Sub" and cint(init[3]) == 1 and contains(init, P(2)) and contains(init, cap) and len([x for x in subterms(init) if x[0] == "bin"]) == 3):
                 ok, why = False, "the climb starts at %s, specification capacity + leaf - 1" % s_
     guard = all(any(a[0] == "b" and a[1][0] == "bin" and a[1][1] == "Ge" and a[1][2] == P(2) and v is False for a, v in p.conds()) for p in paths if p.kind in ("backedge",) or (p.kind == "return" and known_ok(eng.value_of(p.store, p.ret))))
-    exits = [p for p in paths if p.kind == "return" and known_ok(eng.value_of(p.store, p.ret)) is True]
+    exits = [p for p in paths if p.kind == "return" and known_ok(eng.value_of(p.store, p.ret)) is not False]
     stop = all(any(a[0] == "b" and a[1][0] == "bin" and a[1][1] == "Eq" and cint(a[1][3]) == 0 and v is True for a, v in p.conds()) for p in exits)
     ctx.check(ok and len(arms) == 2, "R07-1", "FullMerkleTree::proof", "odd index -> Left(nodes[i+1]), even -> Right(nodes[i-1]), parent ((i+1)>>1)-1, start capacity+leaf-1", why or "arms %s" % sorted(arms), loc(it))
     ctx.check(guard and stop and exits, "R07-3", "FullMerkleTree::proof bounds", "position >= capacity rejected first; the climb ends exactly at the root (heap index 0)",
@@ -182,7 +182,7 @@ def check_optimal(ctx, fb):
                 ok, why = False, "the climb starts at (%s, %s), specification (index, depth)" % (sh(iphi[4], 40), sh(dphi[4], 40))
                 break
     ctx.check(ok and n >= 2, "R07-1", "OptimalMerkleTree::proof", "sibling get_node(depth, i^1), bit 1-((i^1)&1), then i=(i^1)>>1, depth-1, from (index, depth)", why or "found %d step paths" % n, loc(it))
-    exits = [p for p in paths if p.kind == "return" and known_ok(eng.value_of(p.store, p.ret)) is True]
+    exits = [p for p in paths if p.kind == "return" and known_ok(eng.value_of(p.store, p.ret)) is not False]
     guard = all(any(a[0] == "b" and a[1][0] == "bin" and a[1][1] == "Ge" and a[1][2] == P(2) and v is False for a, v in p.conds()) for p in exits)
     stop = all(any(a[0] == "b" and a[1][0] == "bin" and a[1][1] == "Eq" and cint(a[1][3]) == 0 and a[1][2][0] == "bin" and a[1][2][1] == "Sub" and v is True for a, v in p.conds()) and
                any(a[0] == "b" and a[1][0] == "bin" and a[1][1] == "Ne" and cint(a[1][3]) == 0 and v is False for a, v in p.conds()) for p in exits)
@@ -246,7 +246,7 @@ def check_optimal(ctx, fb):
     vf = fb.need(OPT_T + "verify")
     ctx.touch(vf)
     e2 = Engine(fb, inline=opaque_rx(r"compute_root_from$|ZerokitMerkleTree>::root$|ZerokitMerkleProof>::length$"))
-    oks = [(p, e2.value_of(p.store, p.ret)) for p in e2.run(vf) if p.kind == "return" and known_ok(e2.value_of(p.store, p.ret)) is True]
+    oks = [(p, e2.value_of(p.store, p.ret)) for p in e2.run(vf) if p.kind == "return" and known_ok(e2.value_of(p.store, p.ret)) is not False]
     good = len(oks) == 1
     if good:
         p, rv = oks[0]
@@ -271,7 +271,7 @@ def check_pmtree(ctx, fb):
     vf = fb.one(r"pm_tree_adapter::PmTree as zerokit_utils::ZerokitMerkleTree>::verify$")
     ctx.touch(vf)
     e = Engine(fb, inline=lambda i: False)
-    oks = [(p, e.value_of(p.store, p.ret)) for p in e.run(vf) if p.kind == "return" and known_ok(e.value_of(p.store, p.ret)) is True]
+    oks = [(p, e.value_of(p.store, p.ret)) for p in e.run(vf) if p.kind == "return" and known_ok(e.value_of(p.store, p.ret)) is not False]
     good = len(oks) == 1 and cint(oks[0][1][4][0]) == 1
     if good:
         cm = cond_map(oks[0][0])
@@ -280,7 +280,7 @@ def check_pmtree(ctx, fb):
     ctx.check(good, "R07-2", "PmTree::verify", "Ok(true) exactly when pmtree's verify(leaf, proof) holds", "PmTree::verify success is not conditioned on tree.verify(leaf, &witness.proof)", loc(vf))
     pf = fb.one(r"pm_tree_adapter::PmTree as zerokit_utils::ZerokitMerkleTree>::proof$")
     e = Engine(fb, inline=lambda i: False)
-    oks = [e.value_of(p.store, p.ret) for p in e.run(pf) if p.kind == "return" and known_ok(e.value_of(p.store, p.ret)) is True]
+    oks = [e.value_of(p.store, p.ret) for p in e.run(pf) if p.kind == "return" and known_ok(e.value_of(p.store, p.ret)) is not False]
     good = len(oks) == 1 and oks[0][4][0][0] == "adt" and oks[0][4][0][4][0][0] == "unwrap" and oks[0][4][0][4][0][1][1].endswith("::proof") and oks[0][4][0][4][0][1][2] == (F(P(1), "tree"), P(2))
     ctx.check(good, "R07-1", "PmTree::proof", "wraps pmtree's proof(index)", "PmTree::proof is %s" % [sh(o, 160) for o in oks], loc(pf))
 
@@ -291,7 +291,7 @@ def check_export(ctx, fb, cfg):
     inst = "rln::public::RLN::get_proof[%s]" % cfg
     e = Engine(fb, inline=opaque_rx(r"ZerokitMerkle(Tree|Proof)>::|^rln::utils::(vec_fr_to_bytes_le|vec_u8_to_bytes_le)$"))
     paths = e.run(it)
-    oks = [p for p in paths if p.kind == "return" and known_ok(e.value_of(p.store, p.ret)) is True]
+    oks = [p for p in paths if p.kind == "return" and known_ok(e.value_of(p.store, p.ret)) is not False]
     div = [p for p in paths if p.kind == "diverge"]
     why = None
     if len(oks) != 1:
